@@ -21,7 +21,7 @@ pub mod stacks;
 pub mod wire;
 
 pub fn all() -> Vec<&'static dyn Scenario> {
-    vec![&wire::Wire, &corrupt::Corrupt, &corrupt::CorruptSweep, &corrupt::BitLimit, &stacks::Stacks, &stacks::Count, &skip::Skip, &frames::Frames, &sinks::Sinks, &alloc::Alloc, &alloc::AllocMass, &ledger::LedgerScn, &depth::Depth, &depth::DeepStack, &memlimit::MemLimit, &append::Append, &history::History, &history::Reencode]
+    vec![&wire::Wire, &corrupt::Corrupt, &corrupt::CorruptSweep, &corrupt::BitLimit, &corrupt::BigBox, &stacks::Stacks, &stacks::Count, &skip::Skip, &frames::Frames, &sinks::Sinks, &alloc::Alloc, &alloc::AllocMass, &ledger::LedgerScn, &depth::Depth, &depth::DeepStack, &memlimit::MemLimit, &append::Append, &history::History, &history::Reencode]
 }
 
 pub fn by_name(n: &str) -> Option<&'static dyn Scenario> {
